@@ -288,3 +288,272 @@ Proof.
     simpl in E. rewrite <- E.
     rewrite (seq_add_map (0 + (258 - h)) h), map_map. apply map_ext_in. intros i Hi. apply in_seq in Hi. f_equal. unfold h in *. lia.
 Qed.
+
+Lemma upd_len {A} (l : list A) i x : length (upd l i x) = length l.
+Proof. revert i; induction l; destruct i; simpl; auto. Qed.
+
+Lemma at_init_wf : at_wf at_init /\ at_window at_init = [].
+Proof.
+  split; [|reflexivity]. unfold at_wf, at_init. cbn [at_pulses at_count at_head at_tail].
+  rewrite repeat_length. split; [reflexivity|]. left. lia.
+Qed.
+
+Lemma at_window_len t : length (at_window t) = Z.to_nat (at_count t).
+Proof. unfold at_window. rewrite map_length, seq_length. reflexivity. Qed.
+
+(* Sample appends to the window and drops the oldest sample once 258 are held *)
+Lemma at_sample_window t b s :
+  at_wf t -> at_wf (at_sample t b s) /\ at_window (at_sample t b s) = push_window (at_window t) (mkPulse b s).
+Proof.
+  intros Hwf. pose proof Hwf as (Hl & Hcase).
+  unfold push_window. rewrite at_window_len.
+  destruct Hcase as [(Hc & Hh & Ht)|(Hc & Ht & Hh)].
+  - (* not yet full *)
+    assert (Hltb : Nat.ltb (Z.to_nat (at_count t)) 258 = true) by (apply Nat.ltb_lt; lia).
+    rewrite Hltb. rewrite (at_window_small t Hwf) by lia.
+    assert (Hs : at_sample t b s =
+      mkAT (upd (at_pulses t) (Z.to_nat (at_count t)) (mkPulse b s)) 0 ((at_count t + 1) mod 258) (at_count t + 1)).
+    { unfold at_sample, at_N, c_maxAutoTuneSamples. rewrite Ht, Hh.
+      destruct (at_count t <? 258) eqn:E; [reflexivity|apply Z.ltb_ge in E; lia]. }
+    rewrite Hs. destruct (Z.eq_dec (at_count t + 1) 258) as [Hfull|Hnf].
+    + assert (Hwf' : at_wf (mkAT (upd (at_pulses t) (Z.to_nat (at_count t)) (mkPulse b s)) 0 ((at_count t + 1) mod 258) (at_count t + 1))).
+      { unfold at_wf; simpl. rewrite upd_len. split; [assumption|]. right. rewrite Hfull. simpl. lia. }
+      split; [assumption|]. rewrite (at_window_full _ Hwf') by (simpl; lia). simpl at_head. simpl at_pulses.
+      simpl skipn. simpl firstn. rewrite app_nil_r.
+      rewrite <- (firstn_all (upd _ _ _)). rewrite upd_len, Hl.
+      replace 258%nat with (S (Z.to_nat (at_count t))) by lia.
+      apply upd_firstn_S. lia.
+    + assert (Hwf' : at_wf (mkAT (upd (at_pulses t) (Z.to_nat (at_count t)) (mkPulse b s)) 0 ((at_count t + 1) mod 258) (at_count t + 1))).
+      { unfold at_wf; simpl. rewrite upd_len. split; [assumption|]. left.
+        rewrite Z.mod_small by lia. lia. }
+      split; [assumption|]. rewrite (at_window_small _ Hwf') by (simpl; lia). simpl at_count. simpl at_pulses.
+      replace (Z.to_nat (at_count t + 1)) with (S (Z.to_nat (at_count t))) by lia.
+      apply upd_firstn_S. lia.
+  - (* full: overwrite the oldest *)
+    assert (Hltb : Nat.ltb (Z.to_nat (at_count t)) 258 = false) by (apply Nat.ltb_ge; lia).
+    rewrite Hltb. rewrite (at_window_full t Hwf Hc).
+    set (h := Z.to_nat (at_head t)).
+    assert (Hs : at_sample t b s =
+      mkAT (upd (at_pulses t) h (mkPulse b s)) ((at_head t + 1) mod 258) ((at_head t + 1) mod 258) 258).
+    { unfold at_sample, at_N, c_maxAutoTuneSamples. rewrite <- Ht, Hc.
+      destruct (258 <? 258) eqn:E; [apply Z.ltb_lt in E; lia|reflexivity]. }
+    rewrite Hs.
+    assert (Hwf' : at_wf (mkAT (upd (at_pulses t) h (mkPulse b s)) ((at_head t + 1) mod 258) ((at_head t + 1) mod 258) 258)).
+    { unfold at_wf; simpl. rewrite upd_len. split; [assumption|]. right. lia. }
+    split; [assumption|]. rewrite (at_window_full _ Hwf') by reflexivity. simpl at_head. simpl at_pulses.
+    rewrite (skipn_cons_nth (at_pulses t) h pulse0) by (unfold h; lia).
+    rewrite <- app_comm_cons. cbn [tl].
+    destruct (Z.eq_dec (at_head t + 1) 258) as [Hlast|Hnl].
+    + replace (Z.to_nat ((at_head t + 1) mod 258)) with 0%nat by (rewrite Hlast; reflexivity).
+      rewrite skipn_O. cbn [firstn]. rewrite app_nil_r.
+      rewrite (skipn_all2 (n := S h) (at_pulses t)) by (unfold h; lia). cbn [app].
+      rewrite <- (firstn_all (upd _ _ _)). rewrite upd_len, Hl.
+      replace 258%nat with (S h) by (unfold h; lia). apply upd_firstn_S. unfold h; lia.
+    + rewrite Z.mod_small by lia.
+      replace (Z.to_nat (at_head t + 1)) with (S h) by (unfold h; lia).
+      rewrite upd_skipn_S, upd_firstn_S by (unfold h; lia). rewrite app_assoc. reflexivity.
+Qed.
+
+(* consequence: a ring that only ever sampled one sender holds only that sender's samples *)
+Lemma at_sample_consistent d p t b s :
+  at_wf t -> Forall (consistent d p) (at_window t) -> consistent d p (mkPulse b s) ->
+  Forall (consistent d p) (at_window (at_sample t b s)).
+Proof.
+  intros Hwf Hall Hx. destruct (at_sample_window t b s Hwf) as (_ & ->). unfold push_window.
+  apply Forall_app. split; [|constructor; [assumption|constructor]].
+  destruct (Nat.ltb _ _); [assumption|]. destruct (at_window t); [constructor|].
+  apply Forall_cons_iff in Hall. apply Hall.
+Qed.
+
+(* ------------------------------------------------------------ the sort on an in-order window *)
+
+Fixpoint ascending (l : list pulse) : Prop :=
+  match l with
+  | x :: ((y :: _) as t) => plt y x = false /\ ascending t
+  | _ => True
+  end.
+
+Lemma fold_insert_ascending l : forall racc,
+  match racc, l with y :: _, x :: _ => plt x y = false | _, _ => True end ->
+  ascending l ->
+  fold_left (fun racc y => insert_desc y racc) l racc = rev l ++ racc.
+Proof.
+  induction l as [|x t IH]; intros racc Hh Ha; [reflexivity|].
+  simpl fold_left.
+  assert (Hins : insert_desc x racc = x :: racc).
+  { destruct racc as [|y r]; [reflexivity|]. simpl. rewrite Hh. reflexivity. }
+  rewrite Hins. rewrite IH.
+  - simpl. rewrite <- app_assoc. reflexivity.
+  - destruct t as [|y t']; [exact I|]. simpl in Ha. apply Ha.
+  - destruct t as [|y t']; [exact I|]. simpl in Ha. apply Ha.
+Qed.
+
+Lemma isort_ascending l : ascending l -> isort l = l.
+Proof.
+  intros Ha. unfold isort. rewrite (fold_insert_ascending l []); [|destruct l; exact I|assumption].
+  rewrite app_nil_r. apply rev_involutive.
+Qed.
+
+(* ------------------------------------------------------------ scanning a contiguous run *)
+
+Lemma scan_edge_cons bit last cur rest idx :
+  scan_edge bit last (cur :: rest) idx =
+  if u32 (p_seq last + 1) =? p_seq cur then
+    if negb (Bool.eqb (p_bit last) bit) && Bool.eqb (p_bit cur) bit then Edge idx cur rest
+    else scan_edge bit cur rest (idx + 1)
+  else Broken.
+Proof. reflexivity. Qed.
+
+Section Run.
+Variable b : nat -> bool.     (* the type of the i-th sample of the run *)
+Variable s0 : Z.              (* seq of sample 0 *)
+Hypothesis Hs0 : 0 <= s0.
+
+Definition rp (i : nat) : pulse := mkPulse (b i) (s0 + Z.of_nat i).
+Definition rw (k n : nat) : list pulse := map rp (seq k n).
+
+Lemma rw_S k n : rw k (S n) = rp k :: rw (S k) n.
+Proof. reflexivity. Qed.
+
+Lemma rw_ascending : forall n k, s0 + Z.of_nat (k + n) <= 4294967296 -> ascending (rw k n).
+Proof.
+  induction n as [|n IH]; intros k H; [exact I|].
+  rewrite rw_S. destruct n as [|n']; [exact I|]. rewrite rw_S. rewrite <- rw_S.
+  split; [|apply IH; lia].
+  unfold plt, rp, itimediff; cbn [p_seq].
+  replace (s0 + Z.of_nat (S k) - (s0 + Z.of_nat k)) with 1 by lia. reflexivity.
+Qed.
+
+(* no edge among the next m samples: the loop walks over them *)
+Lemma scan_rw_skip bit : forall m k n idx,
+  s0 + Z.of_nat (S k + m + n) <= 4294967296 ->
+  (forall i, (S k <= i < S k + m)%nat -> ~ (b (i - 1) = negb bit /\ b i = bit)) ->
+  scan_edge bit (rp k) (rw (S k) (m + n)) idx = scan_edge bit (rp (k + m)) (rw (S k + m) n) (idx + Z.of_nat m).
+Proof.
+  induction m as [|m IH]; intros k n idx Hr Hno.
+  - rewrite !Nat.add_0_r, Z.add_0_r. reflexivity.
+  - change (S m + n)%nat with (S (m + n)). rewrite rw_S, scan_edge_cons.
+    assert (Hc : (u32 (p_seq (rp k) + 1) =? p_seq (rp (S k))) = true).
+    { apply Z.eqb_eq. unfold rp; cbn [p_seq]. rewrite u32_id by (unfold W32; lia). lia. }
+    rewrite Hc.
+    assert (He : negb (Bool.eqb (p_bit (rp k)) bit) && Bool.eqb (p_bit (rp (S k))) bit = false).
+    { unfold rp; cbn [p_bit]. specialize (Hno (S k) ltac:(lia)). simpl in Hno. rewrite Nat.sub_0_r in Hno.
+      destruct (b k), (b (S k)), bit; simpl in *; try reflexivity; exfalso; apply Hno; auto. }
+    rewrite He. rewrite (IH (S k) n (idx + 1)).
+    + replace (S k + m)%nat with (k + S m)%nat by lia. replace (S (S k) + m)%nat with (S k + S m)%nat by lia.
+      f_equal. lia.
+    + lia.
+    + intros i Hi. apply Hno. lia.
+Qed.
+
+Lemma scan_rw_hit bit k n idx :
+  s0 + Z.of_nat (S k) < 4294967296 -> b k = negb bit -> b (S k) = bit ->
+  scan_edge bit (rp k) (rw (S k) (S n)) idx = Edge idx (rp (S k)) (rw (S (S k)) n).
+Proof.
+  intros Hr H1 H2. rewrite rw_S, scan_edge_cons.
+  assert (Hc : (u32 (p_seq (rp k) + 1) =? p_seq (rp (S k))) = true).
+  { apply Z.eqb_eq. unfold rp; cbn [p_seq]. rewrite u32_id by (unfold W32; lia). lia. }
+  rewrite Hc.
+  assert (He : negb (Bool.eqb (p_bit (rp k)) bit) && Bool.eqb (p_bit (rp (S k))) bit = true).
+  { unfold rp; cbn [p_bit]. rewrite H1, H2. destruct bit; reflexivity. }
+  rewrite He. reflexivity.
+Qed.
+
+(* a run whose first complete pulse of `bit` spans samples L .. R-1 (1 <= L < R < n) *)
+Lemma find_period_run bit (L R n : nat) :
+  (1 <= L)%nat -> (L < R)%nat -> (R < n)%nat -> s0 + Z.of_nat n <= 4294967296 ->
+  (forall i, (1 <= i < L)%nat -> ~ (b (i - 1) = negb bit /\ b i = bit)) ->
+  b (L - 1) = negb bit -> b L = bit ->
+  (forall i, (L < i < R)%nat -> b i = bit) -> b R = negb bit ->
+  find_period_sorted (rw 0 n) bit = Z.of_nat R - Z.of_nat L.
+Proof.
+  intros HL HLR HRn Hr Hpre HL1 HL2 Hrun HR.
+  destruct n as [|n]; [lia|]. rewrite rw_S. unfold find_period_sorted.
+  (* left edge *)
+  replace n with ((L - 1) + (S (n - L)))%nat by lia.
+  rewrite (scan_rw_skip bit (L - 1) 0 (S (n - L)) 1) by (try lia; intros i Hi; apply Hpre; lia).
+  replace (0 + (L - 1))%nat with (L - 1)%nat by lia. replace (1 + (L - 1))%nat with L by lia.
+  replace L with (S (L - 1)) at 2 by lia.
+  rewrite (scan_rw_hit bit (L - 1) (n - L)) by (try lia; replace (S (L - 1)) with L by lia; assumption).
+  replace (S (L - 1)) with L by lia.
+  (* right edge *)
+  replace (n - L)%nat with ((R - L - 1) + S (n - R))%nat by lia.
+  rewrite (scan_rw_skip (negb bit) (R - L - 1) L (S (n - R))).
+  - replace (L + (R - L - 1))%nat with (R - 1)%nat by lia. replace (S L + (R - L - 1))%nat with R by lia.
+    replace R with (S (R - 1)) at 2 by lia.
+    rewrite (scan_rw_hit (negb bit) (R - 1) (n - R)).
+    + lia.
+    + lia.
+    + rewrite negb_involutive. destruct (Nat.eq_dec (R - 1) L) as [->|Hne]; [assumption|apply Hrun; lia].
+    + replace (S (R - 1)) with R by lia. assumption.
+  - lia.
+  - intros i Hi [H1 H2]. rewrite negb_involutive in H1.
+    assert (b i = bit) by (apply Hrun; lia). rewrite H2 in H. destruct bit; discriminate.
+Qed.
+
+End Run.
+
+(* ------------------------------------------------------------ completeness on an aligned clean window *)
+
+(* the samples of an uninterrupted in-order run of a d/p sender starting at seqid s0 *)
+Definition run_pulses (d p s0 : Z) (n : nat) : list pulse :=
+  rw (fun i => (s0 + Z.of_nat i) mod (d + p) <? d) s0 0 n.
+
+Lemma run_pulses_consistent d p s0 n :
+  0 <= s0 -> s0 + Z.of_nat n <= 4294967295 -> Forall (consistent d p) (run_pulses d p s0 n).
+Proof.
+  intros H0 Hn. unfold run_pulses, rw. apply Forall_forall. intros x Hx. apply in_map_iff in Hx.
+  destruct Hx as (i & <- & Hi). apply in_seq in Hi. unfold rp, consistent; simpl. split; [reflexivity|lia].
+Qed.
+
+Theorem find_period_complete_sorted d p s0 n :
+  0 < d -> 0 < p -> 0 <= s0 -> s0 mod (d + p) = d + p - 1 ->
+  (Z.to_nat (d + p) + 2 <= n)%nat -> s0 + Z.of_nat n <= 4294967296 ->
+  find_period_sorted (run_pulses d p s0 n) true = d /\ find_period_sorted (run_pulses d p s0 n) false = p.
+Proof.
+  intros Hd Hp H0 Hal Hn Hr. set (ss := d + p) in *.
+  assert (Hss : 0 < ss) by (unfold ss; lia).
+  pose proof (Z.div_mod s0 ss ltac:(lia)) as Hdm. rewrite Hal in Hdm. set (q := s0 / ss) in *.
+  assert (Hm1 : forall i, 1 <= i <= ss -> (s0 + i) mod ss = i - 1).
+  { intros i Hi. replace (s0 + i) with (ss * (q + 1) + (i - 1) + 0) by lia. rewrite mod_shift by lia. lia. }
+  assert (Hm2 : (s0 + (ss + 1)) mod ss = 0).
+  { replace (s0 + (ss + 1)) with (ss * (q + 2) + 0 + 0) by lia. apply mod_shift; lia. }
+  set (b := fun i : nat => (s0 + Z.of_nat i) mod ss <? d).
+  assert (Hb0 : b 0%nat = false).
+  { unfold b. simpl Z.of_nat. rewrite Z.add_0_r, Hal. apply Z.ltb_ge. unfold ss. lia. }
+  assert (HbD : forall i, (1 <= i <= Z.to_nat d)%nat -> b i = true).
+  { intros i Hi. unfold b. rewrite Hm1 by (unfold ss; lia). apply Z.ltb_lt. lia. }
+  assert (HbP : forall i, (Z.to_nat d + 1 <= i <= Z.to_nat ss)%nat -> b i = false).
+  { intros i Hi. unfold b. rewrite Hm1 by (unfold ss in *; lia). apply Z.ltb_ge. lia. }
+  assert (HbN : b (Z.to_nat ss + 1)%nat = true).
+  { unfold b. replace (Z.of_nat (Z.to_nat ss + 1)) with (ss + 1) by lia. rewrite Hm2. apply Z.ltb_lt. lia. }
+  unfold run_pulses. fold ss. fold b. split.
+  - rewrite (find_period_run b s0 H0 true 1 (Z.to_nat d + 1) n
+               ltac:(lia) ltac:(lia) ltac:(unfold ss in *; lia) Hr
+               ltac:(intros i Hi; lia) Hb0 (HbD 1%nat ltac:(lia))
+               ltac:(intros i Hi; apply HbD; lia) (HbP (Z.to_nat d + 1)%nat ltac:(unfold ss; lia))). lia.
+  - assert (Hpre : forall i, (1 <= i < Z.to_nat d + 1)%nat -> ~ (b (i - 1)%nat = negb false /\ b i = false)).
+    { intros i Hi [_ H2]. rewrite HbD in H2 by lia. discriminate. }
+    assert (HL1 : b (Z.to_nat d + 1 - 1)%nat = negb false).
+    { replace (Z.to_nat d + 1 - 1)%nat with (Z.to_nat d) by lia. apply HbD. lia. }
+    rewrite (find_period_run b s0 H0 false (Z.to_nat d + 1) (Z.to_nat ss + 1) n
+               ltac:(lia) ltac:(unfold ss; lia) ltac:(lia) Hr Hpre HL1 (HbP (Z.to_nat d + 1)%nat ltac:(unfold ss; lia))
+               ltac:(intros i Hi; apply HbP; lia) HbN). unfold ss. lia.
+Qed.
+
+(* on the ring: a window that is exactly such a run (the sort is the identity on it) *)
+Theorem find_period_complete d p s0 n t :
+  0 < d -> 0 < p -> 0 <= s0 -> s0 mod (d + p) = d + p - 1 ->
+  (Z.to_nat (d + p) + 2 <= n)%nat -> s0 + Z.of_nat n <= 4294967296 ->
+  at_window t = run_pulses d p s0 n ->
+  find_period t true = d /\ find_period t false = p.
+Proof.
+  intros Hd Hp H0 Hal Hn Hr Hw. unfold find_period.
+  assert (Hc : (at_count t <? 3) = false).
+  { apply Z.ltb_ge. pose proof (at_window_len t) as Hl. rewrite Hw in Hl. unfold run_pulses, rw in Hl.
+    rewrite map_length, seq_length in Hl. lia. }
+  rewrite Hc, Hw.
+  assert (Hs : isort (run_pulses d p s0 n) = run_pulses d p s0 n).
+  { unfold run_pulses. apply isort_ascending. apply rw_ascending. simpl. lia. }
+  rewrite Hs. apply find_period_complete_sorted; assumption.
+Qed.
